@@ -4,13 +4,13 @@ from ._core_common import *  # noqa
 PROP = "C08"
 SCHEDULERS = ("eager",)
 OPTS = dict(multi=True, p_single_group=0.3, alias=True, combiner=False, fsm=True, nested_methods=False, p_fresh=0.97, p_conflict=0.7, n_tconflict=2, p_mconflict=0.7, n_mconflict=3, p_tm_conflict=0.3, mprio=True, p_before=0.4, min_tr=2, nleaf=(2, 4))
-BOUNDS = {"quick": "fixed relation family (61 designs: cross-module add_conflict in same-position alternatives of If/Switch/FSM, prioritised method conflicts lifted over an exclusive caller pair, bodies with two ready-dependency sources) + 50 batches x 12 random designs with prioritised conflicts and schedule_before", "thorough": "400 batches x 25 designs"}
+BOUNDS = {"quick": "fixed relation family (61 designs: cross-module add_conflict in same-position alternatives of If/Switch/FSM, prioritised method conflicts lifted over an exclusive caller pair, bodies with two ready-dependency sources) + 50 batches x 12 random designs with prioritised conflicts and schedule_before", "thorough": "1600 batches x 25 designs"}
 OUTSIDE = OUTSIDE_COMMON
 ASSUMES = ASSUMES_COMMON
 
 
 def configs(tier, seed):
-    return systematic_configs(SCHEDULERS, family="relations") + batch_configs(tier, seed, 50, 400, 12 if tier == "quick" else 25, OPTS, SCHEDULERS)
+    return systematic_configs(SCHEDULERS, family="relations") + batch_configs(tier, seed, 50, 1600, 12 if tier == "quick" else 25, OPTS, SCHEDULERS)
 
 
 def run(cfg, ctx):
